@@ -22,8 +22,8 @@ i) every comparison leaf of WHERE becomes a row condition: in ConditionEvaluator
 j) the event-at-a-time evaluation of a numeric condition (memtable rows) reads the field through the same kinds as the columnar one (i64, u64, f64): NumericCondition::evaluate_event_direct and
    evaluate_at are siblings; a kind only one of them reads gives different answers before and after FLUSH.
 """
-FLOOR = 14
-REQUIRED = ["C02.a1", "C02.a2", "C02.a3", "C02.a4", "C02.b", "C02.c", "C02.d", "C02.e1", "C02.e2", "C02.f", "C02.g", "C02.h", "C02.i", "C02.j"]
+FLOOR = 15
+REQUIRED = ["C02.a1", "C02.a2", "C02.a3", "C02.a4", "C02.b", "C02.c", "C02.d", "C02.e1", "C02.e2", "C02.f", "C02.g", "C02.h", "C02.i", "C02.j", "C02.k"]
 
 SUPERSET = r"(collect_zones_for_scope|create_all_zones_for_segment_from_meta(_cached)?)$"
 
@@ -396,3 +396,27 @@ def run(ctx):
             return [("memtable-row-kinds", "NumericCondition::evaluate_event_direct reads a field only as %s while the columnar evaluate_at also reads %s: a float (or large u64) value matches an integer literal after FLUSH but not before" % (sorted(ke), sorted(ka - ke)), None)]
         return []
     ctx.run("C02.j", "K11 SIB", "NumericCondition::evaluate_event_direct vs evaluate_at", "memtable rows and segment rows are compared through the same numeric kinds", j_)
+
+    def k_(inst):
+        """A quoted literal is text. add_where_clause knows the literal and the field NAME but not the field's type; it sends every
+        string literal through the time parser, whose numeric fallback accepts any integer text, and then builds a NUMERIC row
+        condition: `uid = "7"` matches the string value "007". Decided here: a numeric condition is built from a string literal
+        only after the field's schema type was consulted."""
+        bad = []
+        b = F.fn("ConditionEvaluatorBuilder::add_where_clause")
+        nums = [c for c in b.calls if not c.cleanup and re.search(r"ConditionEvaluator::add_(in_)?numeric_condition$", c.nname)]
+        if not nums:
+            raise AnchorMissing("add_numeric_condition in add_where_clause")
+        tp = [c for c in b.calls if not c.cleanup and c.nname.endswith("TimeParser::parse_str_to_epoch_seconds")]
+        typed = [c for c in b.calls if not c.cleanup and re.search(r"Schema\w*::(field_type|get_field|fields|field_types)|SchemaRegistry::|FieldType::", c.nname)]
+        from_text = []
+        for c in nums:
+            L = b.origins(c.args[-1], transparent=re.compile(r"Option.*::(or_else|or|map|unwrap_or\w*)$"))
+            W = wide_all(b, c.args[-1])
+            if any(x.dest and x.dest[0] in W for x in tp) or any(l[0] == "call" and "parse_str_to_epoch_seconds" in l[1] for l in L):
+                from_text.append(c)
+        inst.sites += [sp(b, c.bb) for c in from_text] + ["schema type consulted in add_where_clause: %s" % bool(typed)]
+        if from_text and not typed:
+            bad.append(("quoted-literal-becomes-number", "add_where_clause turns a quoted literal into a numeric condition through TimeParser::parse_str_to_epoch_seconds without knowing the field's type: a string field is compared numerically (uid = \"7\" matches \"007\")", sp(b, from_text[0].bb)))
+        return bad
+    ctx.run("C02.k", "K10 READS", "ConditionEvaluatorBuilder::add_where_clause", "a string literal is compared as text unless the field's type says otherwise", k_)
